@@ -251,6 +251,11 @@ namespace vw
             long kind = static_cast<long>(r.below(previous ? 7 : 6));
             if (n >= 36 && cols >= 6 && r.chance(0.12))
                 kind = 7;
+            // very gentle relief: slopes around and far below the machine epsilon (still strictly positive)
+            const bool tiny = r.chance(0.10);
+            const bool ulp_ramp = !tiny && r.chance(0.05);
+            if (ulp_ramp)
+                kind = 9;
             kind_out = kind;
             switch (kind)
             {
@@ -301,6 +306,21 @@ namespace vw
                         f[r.below(n)] -= static_cast<double>(r.range(1, 3));
                     break;
                 }
+                case 9:
+                {
+                    // ramp(s) whose steps are a few units in the last place of the elevation
+                    const double base = r.chance(0.5) ? 1.0 : 1024.0;
+                    const double ulp = std::nextafter(base, 2.0 * base) - base;
+                    const long mult = r.range(1, 3);
+                    for (std::size_t i = 0; i < n; ++i)
+                    {
+                        std::size_t x = i % cols, y = i / cols;
+                        f[i] = base + ulp * static_cast<double>(mult * static_cast<long>(r.chance(0.5) ? x + y : (x > y ? x - y : y - x)));
+                    }
+                    if (r.chance(0.5))
+                        f[r.below(n)] = base - ulp;  // a one-ulp pit
+                    break;
+                }
                 case 7:
                 {
                     // one large bowl surrounded by many one-node pits separated by ridges: many basins, and
@@ -332,6 +352,15 @@ namespace vw
                         f[r.below(n)] -= 1.0;
                     break;
                 }
+            }
+            if (tiny)
+            {
+                // exact power-of-two scaling keeps the order relations of the field
+                static const int exps[] = { -40, -54, -60, -200, -1000 };
+                const int e = exps[r.below(5)];
+                for (auto& v : f)
+                    v = std::ldexp(v, e);
+                kind_out += 100;
             }
             return f;
         }
@@ -1318,6 +1347,11 @@ namespace vw
                             dist_copy.push_back(dbits(v));
                         typename G::neighbors_type nb_copy = nb;
                         const std::size_t other = (idx + 1 + static_cast<std::size_t>(h.c)) % n;
+                        // whatever type the accessors return (an owning array today), a user may keep it in an
+                        // `auto` variable across later look-ups
+                        auto held_ind = grid.neighbors_indices(idx);
+                        auto held_dist = grid.neighbors_distances(idx);
+                        auto held_nb = grid.neighbors(idx);
                         auto other_ind = grid.neighbors_indices(other);
                         auto other_nb = grid.neighbors(other);
                         auto other_d = grid.neighbors_distances(other);
@@ -1331,6 +1365,9 @@ namespace vw
                             same = dist_copy[k] == dbits(dists[k]);
                         for (std::size_t k = 0; same && k < nb_copy.size(); ++k)
                             same = nb_copy[k] == nb[k];
+                        same = same && held_ind.size() == ind_copy.size() && held_dist.size() == dist_copy.size() && held_nb.size() == nb_copy.size();
+                        for (std::size_t k = 0; same && k < ind_copy.size(); ++k)
+                            same = ind_copy[k] == held_ind[k] && dist_copy[k] == dbits(held_dist[k]) && nb_copy[k] == held_nb[k];
                         if (!same)
                             bad = "a result held by the caller changed when another node was queried";
                     }
